@@ -206,7 +206,7 @@ func c09body(first []string, maxLen int, withResume bool, variant string) func()
 
 // c09burst sends a whole history in ONE write (everything arrives in the same read, <r/>
 // directly behind stanzas) and compares the ordered list of answers with the reference.
-func c09burst(first []string, maxLen int) func() {
+func c09burst(first []string, maxLen int, dropResume bool) func() {
 	return func() {
 		seq := append([]string{}, first...)
 		// (an answer to a pending SendIQ needs a request in flight: covered by the step-wise histories)
@@ -246,6 +246,25 @@ func c09burst(first []string, maxLen int) func() {
 			}
 		}
 		sc.send(sb.String())
+		if dropResume {
+			// the connection is lost right behind the burst (the client has not read anything yet), then the
+			// session is resumed: everything that was completely received counts
+			sc.close()
+			vrt.WaitIdle()
+			if err := s.cl.Connect(); err != nil {
+				vrt.Fail("C09|harness|reconnect", "inbound %v in one write then loss: second Connect failed: %v", seq, err)
+				return
+			}
+			vrt.WaitIdle()
+			if len(s.recs) < 2 || len(s.recs[1].ResumeSeen) != 1 {
+				vrt.Fail("C09|no-resume-request", "inbound %v in one write then loss: no resume request on the second connection", seq)
+				return
+			}
+			if h := attr(s.recs[1].ResumeSeen[0], "h"); h != strconv.Itoa(count) {
+				vrt.Fail("C09|resume-count-wrong|burst-then-loss", "inbound %v delivered in one write, connection lost right behind it: <resume h=%q>, stanzas completely received %d", seq, h, count)
+			}
+			return
+		}
 		vrt.WaitIdle()
 		var got []string
 		for _, u := range sc.drainNew() {
@@ -299,7 +318,8 @@ func TestVerifC09(t *testing.T) {
 		if a == "iq-resp" {
 			continue
 		}
-		scs = append(scs, hx.Scenario{Name: "burst/first=" + a, Opt: vrt.Options{Bound: 0}, Body: c09burst([]string{a}, maxLen), Verdict: c09verdict})
+		scs = append(scs, hx.Scenario{Name: "burst/first=" + a, Opt: vrt.Options{Bound: 0}, Body: c09burst([]string{a}, maxLen, false), Verdict: c09verdict})
+		scs = append(scs, hx.Scenario{Name: "burst-then-loss/first=" + a, Opt: vrt.Options{Bound: thoroughBound(1)}, Body: c09burst([]string{a}, maxLen-1, true), Verdict: c09verdict})
 	}
 	if hx.Thorough() {
 		for _, a := range c09alphabet {
